@@ -60,6 +60,9 @@ DEFAULT_WEIGHTS = dict(
     end_done=0.3,         # probability that a final divert is DONE instead of END
     workarounds=1.0,      # > 0: avoid the constructs this compiler is known to miscompile (see the
                           # "finding c01-..." comments); 0: generate them too (valid Ink all the same)
+    thread_stmts=(0, 2),  # (lo, hi) simple statements of a thread knot before its choices (C16 raises it:
+                          # the story then pauses between two lines INSIDE a forked thread)
+    func_stmts=(0, 2),    # (lo, hi) statements of an impure function before its final return
 )
 
 # what Spec/RefSem.v covers: everything else is switched off in fragment="refsem"
@@ -489,7 +492,7 @@ class Gen:
             body = []
             pure = self.p("pure_func")          # no assignment, no text: only computes its result
             text = (not pure) and self.p("func_text")
-            for _ in range(0 if pure else r.randint(0, 2)):
+            for _ in range(0 if pure else r.randint(*w["func_stmts"])):
                 k = _pick(r, [("assign", 2.0), ("line", 1.5 if text else 0.0), ("ifret", 1.0)])
                 if k == "assign":
                     a = self.assign(sc)
@@ -521,7 +524,7 @@ class Gen:
         thknots = []
         for name in threads:
             sc = dict(base, funcs=funcs, tunnels=[], threads=[], forward=places, allow=set(), place=name)
-            body = self.simple_block(sc, set(), 0, 2)
+            body = self.simple_block(sc, set(), *w["thread_stmts"])
             n = r.randint(1, 2)
             body.append(["choices", [self.choice(sc, 2, must_divert=True) for _ in range(n)]])
             thknots.append({"name": name, "params": [], "function": False, "body": body, "stitches": []})
